@@ -234,5 +234,50 @@ pub fn run(o: &Opts) {
             sh.push(format!("C [] [R {} {} OOpaque]", seen.len(), coq::bool_(code == 0)), vec![rep]);
         }
     }
+    // import with generated configurations: rules whose matcher combines several fields, each
+    // with named groups, so that any order dependence between fields would show
+    if !replay {
+        let n_imp = if o.thorough { 60 } else { 12 };
+        for k in 0..n_imp {
+            let pats_payee = ["Card (?P<code>\\d+) (?P<payee>.*)", "Card", "(?P<payee>Migros|SBB).*", "Card \\d+ (?P<payee>\\w+)"];
+            let pats_cat = ["POS (?P<code>\\d+) (?P<payee>.*)", "POS", "(?P<code>\\d+)", "POS \\d+ (?P<payee>\\w+)"];
+            let mut yml = String::from("path: stmt\nencoding: UTF-8\naccount: Assets:Bank\naccount_type: asset\ncommodity: CHF\nformat:\n  date: \"%Y-%m-%d\"\n  fields:\n    date: Date\n    payee: Description\n    category: Reference\n    amount: Amount\nrewrite:\n");
+            let n_rules = 1 + r.below(3);
+            for _ in 0..n_rules {
+                yml.push_str("  - matcher:\n");
+                let both = r.chance(2, 3);
+                if both || r.chance(1, 2) {
+                    yml.push_str(&format!("      payee: {}\n", r.pick(&pats_payee)));
+                    if both {
+                        yml.push_str(&format!("      category: {}\n", r.pick(&pats_cat)));
+                    }
+                } else {
+                    yml.push_str(&format!("      category: {}\n", r.pick(&pats_cat)));
+                }
+                if r.chance(2, 3) {
+                    yml.push_str(&format!("    account: Expenses:R{}\n", r.below(4)));
+                }
+                if r.chance(1, 3) {
+                    yml.push_str("    pending: true\n");
+                }
+            }
+            let csv = "Date,Description,Reference,Amount\n2024-04-02,Card 4711 Migros Zurich,POS 900123 MIGROS ZH,-45.80\n2024-04-03,Salary April,WIRE 77 ACME AG,5200.00\n2024-04-05,Card 4711 SBB Ticket Shop,POS 900456 SBB CFF FFS,-23.00\n2024-04-06,Card 12 Coop,OTHER 1 X,-3.00\n";
+            let cfg = scratch.write(&format!("imp{}/config.yml", k), &yml);
+            let src = scratch.write(&format!("imp{}/stmt.csv", k), csv);
+            let args = vec!["import".to_string(), "--config".to_string(), cfg.to_string_lossy().to_string(), src.to_string_lossy().to_string()];
+            let mut seen: HashSet<(i32, String, String)> = HashSet::new();
+            let mut code = 0;
+            for _ in 0..n_runs.max(10) {
+                let out = run_bin(&bin, &args);
+                code = out.code;
+                seen.insert((out.code, out.stdout, out.stderr));
+            }
+            st.eval(&yml, true);
+            st.count(&format!("cmd:import-generated:{}", if code == 0 { "ok" } else { "fail" }));
+            let rep = json!({"property": "C13", "import_config": yml, "statement": csv, "distinct_outputs": seen.len(),
+                             "reproduce": "okane import --config config.yml stmt.csv, repeated in fresh processes"});
+            sh.push(format!("C [] [R {} {} OOpaque]", seen.len(), coq::bool_(code == 0)), vec![rep]);
+        }
+    }
     sh.finish(&st);
 }
